@@ -83,9 +83,15 @@ namespace
             ops.push(op);
         }
         plan["ops"] = ops;
+        // (drawn last) TSan build: a yield point in front of every atomic operation of library and harness code, so that
+        // the scheduler can also switch threads between two atomic operations (sim/atomic_yield.cpp)
+        plan["atomic_yields"] = g.chance(0.5);
         return plan;
     }
 }  // namespace
+
+extern "C" void sim_atomic_yield_enable(int) __attribute__((weak));
+extern "C" long sim_atomic_yield_count() __attribute__((weak));
 
 class ConcSim : public sim::Engine
 {
@@ -473,6 +479,10 @@ sim::CaseResult ConcSim::run(const sim::Options &, const Json &plan)
         sim::finishCaseNow(res);
     };
     ss::start(cfg);
+    const bool atomicYields = plan.getb("atomic_yields") && sim_atomic_yield_enable != nullptr;
+    long ay0 = sim_atomic_yield_count ? sim_atomic_yield_count() : 0;
+    if (atomicYields)
+        sim_atomic_yield_enable(1);
     std::vector<int> tids;
     for (int t = 1; t < T; t++)
         tids.push_back(ss::spawn([&, t] {
@@ -491,6 +501,11 @@ sim::CaseResult ConcSim::run(const sim::Options &, const Json &plan)
         }
     for (int t : tids)
         ss::join(t);
+    if (atomicYields)
+    {
+        sim_atomic_yield_enable(0);
+        res.faults["F4-yield-before-atomic-operation"] += sim_atomic_yield_count() - ay0;
+    }
     ss::Stats st = ss::stop();
 
     // functional checks against the sequential answers
